@@ -164,7 +164,7 @@ async def run_scheduler_loop(scheduler: TaskiqScheduler) -> None:
             for task in task_list:
                 try:
                     task_delay = get_task_delay(task)
-                except ValueError:
+                except (ValueError, ZeroDivisionError):
                     logger.warning(
                         "Cannot parse cron: %s for task: %s, schedule_id: %s.",
                         task.cron,
